@@ -85,6 +85,17 @@ def run(ctx):
                 p["runs"] = 2
                 p["reseed"] = 1
                 ps.append(p)
+        # the "abort idiom": the callback raises the stop and returns NaN (or Inf) from the same call
+        for nm in problems.ALL:
+            for k in ([1, 2, 3, 5, 8, 13, 21, 34] if ctx.thorough else [2, 4, 9, 17]):
+                p = problems.gen_problem(rng, A, alg_name=nm, maxeval=200, with_constraints=False)
+                for kk in ("maxtime", "clockq", "clock0", "stopval"):
+                    p.pop(kk, None)
+                p["stopat"] = k
+                p["inj"] = "%d:%s" % (k, rng.choice(["7ff8000000000000", "7ff8000000000000", "7ff0000000000000"]))
+                p["runs"] = 2
+                p["reseed"] = 1
+                ps.append(p)
         # the stop raised by exactly the evaluation that also exhausts maxeval: FORCED_STOP must win
         for nm in problems.ALL:
             for k in ([2, 3, 4, 5, 6, 8, 11, 16, 23] if ctx.thorough else [2, 3, 5, 8]):
@@ -100,6 +111,30 @@ def run(ctx):
         import os
         env = dict(os.environ)
         env["HRUN_TIMEOUT"] = "10"
+        # two-stage family: a converging run first (its number of callbacks T), then the stop raised in callback T, T-1, T-2 —
+        # the final extra evaluations of model-based methods, the last vertex of a simplex, the last local search ...
+        conv = []
+        for nm in problems.ALL:
+            for rep in range(3 if ctx.thorough else 1):
+                p = problems.gen_problem(rng, A, alg_name=nm, maxeval=1500, with_constraints=False, box="finite", allow_max=False)
+                for kk in ("maxtime", "clockq", "clock0", "stopval", "xtol_abs", "ftol_rel"):
+                    p.pop(kk, None)
+                p["xtol_rel"] = rng.choice([1e-3, 1e-6])
+                p["obj"] = rng.choice([0, 1])
+                p["quietx"] = 1
+                conv.append(p)
+        cruns, _ = swrap.run_specs(bdir, [problems.to_line(p) for p in conv], env=env)
+        for p, r in zip(conv, cruns):
+            T = len(r.calls)
+            if r.status != "ok" or r.R is None or T < 3 or r.R.get("ret") not in ("1", "2", "3", "4"):
+                continue
+            for k in (T, T - 1, T - 2):
+                q = dict(p)
+                q.pop("quietx", None)
+                q["stopat"] = k
+                q["runs"] = 2
+                q["reseed"] = 1
+                ps.append(q)
         lines = [problems.to_line(p) for p in ps]
         runs, _ = swrap.run_specs(bdir, lines, env=env)
         n1 = n2 = unrelated = 0
